@@ -77,6 +77,15 @@ def specGenesis (t : Tree) (r : Request) : Except Err (List BData) :=
   else
     descByNumber t r.mask (min max 1) 0
 
+/-- the harness finalises block `fin` of the best chain only when that prunes nothing: `fin` is at
+    most the best number and every number `≤ fin` is carried by exactly one block -/
+def finOk (t : Tree) (fin : Nat) : Bool :=
+  if fin = 0 then true
+  else if fin > maxNum t then false
+  else
+    let cnt := t.foldl (fun (c : Array Nat) b => c.modify b.num (· + 1)) (Array.replicate (maxNum t + 1) 0)
+    (List.range (fin + 1)).all (fun k => cnt[k]? = some 1)
+
 def step (line : String) : String :=
   match words line with
   | ["const", "MaxBlocksInResponse"] => toString maxBlocks
@@ -100,7 +109,7 @@ def step (line : String) : String :=
         | some none => "bad-tree"
         | some (some t) =>
           if countNum t (maxNum t) ≠ 1 then "bad-tree"
-          else if fin ≠ 0 then "bad-tree"
+          else if !finOk t fin then "bad-tree"
           else
             let r : Request := ⟨fr, dir, mx, mask⟩
             let out := showResp (serve t r)
